@@ -91,7 +91,9 @@ func (c *vsfConn) PrepareContext(ctx context.Context, q string) (driver.Stmt, er
 	return &vsfStmt{st}, nil
 }
 
-func (c *vsfConn) Prepare(q string) (driver.Stmt, error) { return c.PrepareContext(context.Background(), q) }
+func (c *vsfConn) Prepare(q string) (driver.Stmt, error) {
+	return c.PrepareContext(context.Background(), q)
+}
 
 func (c *vsfConn) BeginTx(ctx context.Context, opts driver.TxOptions) (driver.Tx, error) {
 	if b, ok := c.Conn.(driver.ConnBeginTx); ok {
